@@ -19,6 +19,7 @@ import (
 	"math"
 	"os"
 	"path/filepath"
+	"runtime/debug"
 	"sort"
 	"strconv"
 	"strings"
@@ -129,6 +130,7 @@ type world struct {
 	classes    map[string]int
 	appendedAt []int // per history op index: number of entries appended before it started
 	thorough   bool
+	logRemoved bool
 }
 
 func (w *world) logf(format string, args ...any) { w.ops = append(w.ops, fmt.Sprintf(format, args...)) }
@@ -275,7 +277,8 @@ func (w *world) recoverImage(p crash.Point) {
 		}
 	}
 	fq.Close()
-	if logApp < int64(appendedBefore)-1 {
+	logRemoved := p.FSOp == "logRemoved"
+	if logApp < int64(appendedBefore)-1 && !logRemoved {
 		w.fatalf("image %s: %d entries had been appended, the recovered log ends at sequence %d", p, appendedBefore, logApp)
 	}
 	// 2. engine
@@ -352,6 +355,13 @@ func (w *world) recoverImage(p crash.Point) {
 	c.SetLayout(w.db, node.DBOption(timeutil.Interval(10_000)), map[string][]models.ShardID{"leaf:1": {0}})
 	tr := "time>='2023-05-01 10:00:00' and time<='2023-05-01 10:59:59'"
 	visible := int(logApp) + 1 // entries in the recovered log (a crash inside an append may or may not show it)
+	if logRemoved {
+		// the log partition was removed by the removal task: every appended entry must be in flushed data
+		visible = appendedBefore
+		if persisted < int64(appendedBefore)-1 {
+			w.fatalf("image %s: the log partition was removed although entries above the stored sequence %d exist (%d appended): they are in no flushed data and cannot be replayed", p, persisted, appendedBefore)
+		}
+	}
 	if visible > 0 {
 		rs, err := c.Query(w.db, "select s from acc where "+tr)
 		if err != nil {
@@ -368,7 +378,7 @@ func (w *world) recoverImage(p crash.Point) {
 				w.fatalf("image %s: log entry %d (at or below the stored sequence %d) was applied %d times", p, i, persisted, d[i])
 			}
 		}
-		for i := visible; i < len(d); i++ {
+		for i := visible; i < len(d) && !logRemoved; i++ {
 			if d[i] != 0 {
 				w.fatalf("image %s: data of log entry %d is present although the log ends at %d", p, i, logApp)
 			}
@@ -448,7 +458,14 @@ func runHistory(t *rapid.T, thorough bool) {
 			w.part.Stop()
 		}
 		if w.n != nil {
-			w.n.Close()
+			func() {
+				if w.logRemoved {
+					// the final flush of the engine acknowledges into the (closed) log of the removed partition
+					debug.SetPanicOnFault(true)
+					defer func() { _ = recover() }()
+				}
+				w.n.Close()
+			}()
 		}
 		if w.part != nil {
 			_ = w.part.Close()
@@ -497,6 +514,24 @@ func runHistory(t *rapid.T, thorough bool) {
 	})
 	w.t = t
 
+	// the periodic log-removal task (WriteAheadLogManager garbage collection): Partition.IsExpire()
+	// syncs + collects the log and says whether the partition of this (long past) family may be
+	// removed; if so the task stops and closes the partition and removes its directory.
+	if rapid.Bool().Draw(t, "logRemovalTask") {
+		w.logf("logRemovalTask")
+		w.begin("logRemovalTask")
+		if w.part.IsExpire() {
+			w.part.Stop()
+			_ = w.part.Close()
+			_ = os.RemoveAll(w.walPath)
+			w.logRemoved = true
+			w.logf("  (partition expired: log directory removed)")
+			w.im.Hook("logRemoved", w.walPath, false)
+			w.classes["log-partition-removed"]++
+		}
+		w.end()
+	}
+
 	// ---- the crash: the live node is not used any more; sampled images are recovered
 	pts := w.im.Points
 	w.im.Active = false
@@ -507,7 +542,7 @@ func runHistory(t *rapid.T, thorough bool) {
 			withDir = append(withDir, i)
 		}
 	}
-	limit := 5
+	limit := 6
 	if thorough {
 		limit = 30
 	}
@@ -517,12 +552,26 @@ func runHistory(t *rapid.T, thorough bool) {
 			chosen[i] = true
 		}
 	} else {
-		// prefer the points of flush sub-steps and replication steps (the windows of the quantifier)
-		var hot []int
+		// prefer the commit boundaries inside flush sub-steps (between two manifest commits of the
+		// several kv families one sub-step flushes) and the points of replication steps / log GC
+		var hot, boundary []int
 		for _, i := range withDir {
 			switch pts[i].OpName {
-			case "flushFamily", "flushIndex", "flushMeta", "replicaStep", "logGC":
+			case "flushFamily", "flushIndex", "flushMeta":
+				if pts[i].FSOp == "manifestSync" && !pts[i].Before {
+					boundary = append(boundary, i)
+				}
 				hot = append(hot, i)
+			case "replicaStep", "logGC":
+				hot = append(hot, i)
+			}
+		}
+		for n := 0; n < 3 && len(boundary) > 0; n++ {
+			chosen[boundary[rapid.IntRange(0, len(boundary)-1).Draw(t, "boundaryImage")]] = true
+		}
+		for _, i := range withDir {
+			if pts[i].FSOp == "logRemoved" {
+				chosen[i] = true
 			}
 		}
 		for len(chosen) < limit {
